@@ -455,4 +455,8 @@ POEnv(n) ==
 \* counts: the boundaries of the rules, negative ones, a large one (TLC's
 \* integers are 32 bit; $n + 1 must stay below 2^30)
 PONs == <<0, 1, 2, 3, 5, 11, 21, 22, 101, -1, -2, -7, -11, 1000000021>>
+\* the large family of plurals with two-part bodies is tried on fewer counts
+PONsShort == <<0, 1, 2, 5, 21, -1, -2, 1000000021>>
+POBigPlural(d) == d.kind = "plural" /\ Len(d.cb) > 0 /\ Len(d.cb[1]) + Len(d.db) > 2
+PONsFor(d) == IF d.kind # "plural" THEN <<3>> ELSE IF POBigPlural(d) THEN PONsShort ELSE PONs
 =============================================================================
